@@ -640,7 +640,8 @@ def premarshal(marshal, x):
 
 
 def view_real(m):
-    v = {'type': m._messageType, 'serial': m.serial, 'er': bool(m.expectReply), 'as': bool(m.autoStart)}
+    v = {'type': m._messageType, 'serial': m.serial, 'er': bool(m.expectReply), 'as': bool(m.autoStart),
+         'of': getattr(m, 'otherFlags', None)}
     for a in ATTRS:
         v[a] = ca(getattr(m, a, None))
     return v
@@ -710,7 +711,7 @@ def view_from_model(line):
     if d['_head'] != 'ok':
         return {'malformed': line}
     v = {'ok': True, 'type': int(d['type']), 'serial': int(d['serial']), 'er': d['er'] == 'T', 'as': d['as'] == 'T',
-         'hdr': int(d['hdr']), 'pad': d['pad'], 'body': d['body']}
+         'of': int(d['of']), 'hdr': int(d['hdr']), 'pad': d['pad'], 'body': d['body']}
     for a in ATTRS:
         v[a] = d[a]
     return v
@@ -751,7 +752,8 @@ def x_fields(x, nfds):
 
 
 def x_view(x, serial, nfds):
-    v = {'type': MTYPE[x['cls']], 'serial': serial, 'er': x['er'], 'as': x['as']}
+    # 'of': the flag bits txdbus has no attribute for (0x4 ALLOW_INTERACTIVE_AUTHORIZATION, ...) - "recovers ... the flags"
+    v = {'type': MTYPE[x['cls']], 'serial': serial, 'er': x['er'], 'as': x['as'], 'of': 4 if x.get('flag4') else 0}
     for a in ATTRS[:-1]:
         v[a] = ca(x[a])
     v['unix_fds'] = ca(nfds if nfds else None)
@@ -766,7 +768,7 @@ def x_body(x):
 
 
 def strip_view(v):
-    return {k: v[k] for k in ['type', 'serial', 'er', 'as'] + ATTRS}
+    return {k: v[k] for k in ['type', 'serial', 'er', 'as', 'of'] + ATTRS}
 
 
 def in_domain(x):
@@ -948,7 +950,7 @@ def check_view(ctx, key, what, x, got_view, got_body, want_view, want_body, extr
         if got_body != want_body:
             diff.append('body')
         k = key
-        if set(diff) <= {'er', 'as'}:
+        if set(diff) <= {'er', 'as', 'of'}:
             k = 'parse-ignores-flags'
         inp = public(x)
         if extra:
